@@ -24,11 +24,17 @@ OBLIGATIONS = [
         cases={"quick": [{"kinds": [0, 1, 2], "_label": "unsigned_or_sigprefix"}, {"kinds": [0, 3, 4], "_label": "bad_key"},
                          {"kinds": [0, 5], "_label": "bad_body"}, {"kinds": [0, 6, 8], "_label": "unsigned_or_short"},
                          {"kinds": [0, 7, 10], "_label": "strkey_or_nottuple"}, {"kinds": [0, 9], "_label": "intkey"}],
-               "thorough": [{"_label": "all"}]},
-        timeout={"quick": 120, "thorough": 900},
+               "thorough": [{"kinds": [0, 1, 2, 3, 4, 5, 6, 7, 8, 10], "_label": "all-but-intkey"}, {"kinds": [0, 9], "_label": "intkey"}]},
+        timeout={"quick": 120, "thorough": 1200},
         desc="same batch where each position may also be a malformed encoding (no signature, non-v0 signature or key prefix, undecodable key, signed non-JSON body, "
              "unsigned (msg, None, None), text or integer key, tuple shorter than 3, not a tuple) "
              "run through the real unsign_from_foolscap: every good announcement in the batch is still stored and delivered; bad ones never are"),
+    chx("key_identity", "C34_h", "h_key_identity", timeout={"quick": 120, "thorough": 600},
+        desc="got_announcements -> real unsign_from_foolscap -> real ed25519.verifying_key_from_string, ideal signature check keyed on the DECODED key: "
+             "seqnum 2 under the canonical key string and a replay of seqnum 1 under another spelling of the same key (upper/mixed case, surrounding blanks, "
+             "newline, non-canonical last base32 character), in either order: announcements vouched for by one key never end up under two index entries and "
+             "no lower seqnum is delivered after a higher one",
+        outside="spellings other than the 9 listed"),
     chx("server_publish", "C34_h", "h_server_publish", timeout={"quick": 120, "thorough": 600},
         desc="IntroducerService._publish (server side of the same rule), one step: relayed/stored iff signature valid and fresh by the same seqnum rule; "
              "BadSignature reported iff invalid; rejected => nothing relayed, stored entry untouched"),
